@@ -65,6 +65,11 @@ CORPUS = {
         definition=machine("M", M={"Type": "Map", "ItemsPath": "$.items", "MaxConcurrency": 2,
                                    "ItemProcessor": machine("T", T=T("f1", End=True)), "End": True}),
         input={"items": [1, 2, 3, 4, 5]}, script={"f1": [{"ok": OK, "delay": 1.0}]}),
+    "map-batches-task-then-pass": dict(
+        definition=machine("M", M={"Type": "Map", "ItemsPath": "$.items", "MaxConcurrency": 2, "ResultPath": "$.r", "Next": "Z",
+                                   "ItemProcessor": machine("T", T=T("f1", Next="D"), D={"Type": "Pass", "End": True})},
+                           Z={"Type": "Pass", "End": True}),
+        input={"items": [1, 2, 3, 4]}, script={"f1": [{"ok": OK, "delay": 1.0}]}),
     "parallel-branch-fails": dict(
         definition=machine("P", P={"Type": "Parallel", "Branches": [
             machine("A", A=T("f1", End=True)), machine("B", B=T("bad", End=True))], "End": True}),
@@ -101,7 +106,7 @@ CORPUS = {
 
 QUICK = ["pass-task-pass", "two-tasks-and-wait", "choice-and-succeed", "task-retry-then-success", "task-catch",
          "task-timeout-caught", "fail-state", "parallel-two-tasks", "parallel-end-with-wait", "map-tasks",
-         "map-maxconcurrency", "parallel-branch-fails", "map-batches-iterator-ends-in-parallel",
+         "map-maxconcurrency", "map-batches-task-then-pass", "parallel-branch-fails", "map-batches-iterator-ends-in-parallel",
          "parallel-branch-ends-in-map", "parallel-in-parallel-then-task"]
 
 
